@@ -31,6 +31,12 @@ BAD = {
     # CPython's own parser gives up (RecursionError from ast.parse) a little below 3000 operands
     "operator-chain-beyond-cpython-parser-limit": b"x = " + b" + ".join([b"1"] * 6000) + b"\n",
     "long-call-chain": b"x = q" + b".m()" * 1200 + b"\n",
+    # files cut off right after a header: the grammar yields the item without its body
+    "rust-impl-header-without-body": b"struct Session {\n    id: u32,\n}\n\nimpl Session {\n    pub fn open(&self) {}\n}\n\nimpl Session",
+    "rust-impl-semicolon": b"struct Session {\n    id: u32,\n}\n\nimpl Session;\nimpl Clone for Session;\n",
+    "class-header-without-body": b"class Session",
+    "function-header-without-body": b"def open(self):",
+    "ts-class-header-without-body": b"export class Session extends Base",
     "deep-blocks": "".join("    " * i + "if a%d:\n" % i for i in range(60)).encode() + b"    " * 60 + b"pass\n",
     "only-comments": b"# a\n# b\n// c\n",
     "lone-surrogate-escape": "s = '\\ud800'\n".encode(),
